@@ -36,7 +36,20 @@ IsMantissa(m) == LET ip == IntPart(m)  fp == FracPart(m) IN
                  /\ (ip # "" \/ fp # "")
                  /\ (ip = "" \/ IsDigitPart(ip)) /\ (fp = "" \/ IsDigitPart(fp))
 IsSpecialFloat(u) == Upper(u) \in {"INF","INFINITY","NAN"}
-IsFloatLiteral(raw) == LET s == StripSign(Strip(raw)) IN
+\* Python's float() strips white space; besides the blank the drivers use tab, LF, VT, FF, CR, which travel as escapes
+WSEsc == {"{9}","{10}","{11}","{12}","{13}"}
+RECURSIVE LStripWS(_)
+LStripWS(s) == IF s # "" /\ Ch(s,1) = " " THEN LStripWS(Tail(s))
+               ELSE IF Len(s) >= 3 /\ SubSeq(s,1,3) \in WSEsc THEN LStripWS(SubSeq(s,4,Len(s)))
+               ELSE IF Len(s) >= 4 /\ SubSeq(s,1,4) \in WSEsc THEN LStripWS(SubSeq(s,5,Len(s)))
+               ELSE s
+RECURSIVE RStripWS(_)
+RStripWS(s) == IF s # "" /\ Ch(s,Len(s)) = " " THEN RStripWS(SubSeq(s,1,Len(s)-1))
+               ELSE IF Len(s) >= 3 /\ SubSeq(s,Len(s)-2,Len(s)) \in WSEsc THEN RStripWS(SubSeq(s,1,Len(s)-3))
+               ELSE IF Len(s) >= 4 /\ SubSeq(s,Len(s)-3,Len(s)) \in WSEsc THEN RStripWS(SubSeq(s,1,Len(s)-4))
+               ELSE s
+StripWS(s) == RStripWS(LStripWS(s))
+IsFloatLiteral(raw) == LET s == StripSign(StripWS(raw)) IN
                        \/ IsSpecialFloat(s)
                        \/ /\ IsMantissa(Mantissa(s))
                           /\ (ExpPos(s) = 0 \/ IsDigitPart(StripSign(ExpPart(s))))
@@ -51,7 +64,7 @@ RECURSIVE StripTrailZ(_)
 StripTrailZ(ds) == IF ds # <<>> /\ ds[Len(ds)] = 0 THEN StripTrailZ(SubSeq(ds,1,Len(ds)-1)) ELSE ds
 \* does the finite literal denote exactly t/10 (t in 0..100)?  value = D * 10^(e - |frac|), D = int ++ frac digits
 LiteralEqualsTenths(raw, t) ==
-   LET s0 == Strip(raw)  s == StripSign(s0)  m == Mantissa(s)
+   LET s0 == StripWS(raw)  s == StripSign(s0)  m == Mantissa(s)
        ip == DigitsOf(IntPart(m))  fp == DigitsOf(FracPart(m))
        all == StripLeadZ(ip \o fp)
        sig == StripTrailZ(all)                         \* significant digits
